@@ -1,6 +1,8 @@
 import RichModel.Model.Console
 import RichModel.Model.ConsolePrint
 import RichModel.Model.ConsoleLog
+import RichModel.Model.ConsoleFormat
+import RichModel.Model.ConsoleLogTime
 import RichModel.Drv.C01
 import RichModel.Gen.CellWidths
 import RichModel.Drv.Proto
@@ -31,6 +33,16 @@ Request:  c15_log <TAB> flags <TAB> width <TAB> time <TAB> strs <TAB> sep <TAB> 
   flags : the variant flags of the composition layer, in the format of Drv/C01.lean (`props.c01.FLAGS`)
   time  : "-" (show_time off) or "=<str>" (text of the time cell);  path : "-" or "=<str>" (`file:line`)
 Answer: `ok:<text of the appended segments>` or `unmodelled`.
+
+Request:  c15_format <TAB> fmt <TAB> code <TAB> stylesheet <TAB> foreground <TAB> background      (Model/ConsoleFormat.lean)
+Answer: `ok:<str>`, `err:ValueError`, `err:IndexError`, `err:KeyError:<name>` or `unmodelled`.
+
+Request:  c15_htmlfmt <TAB> variant <TAB> config <TAB> styles <TAB> record(seg|seg|…) <TAB> clear <TAB> inline <TAB> fg <TAB> bg <TAB> fmt
+  `export_html(clear=, inline_styles=, code_format=fmt)` with the format string as a string, on a console whose record is given.
+Answer: <result> <TAB> <record afterwards>;  result = `e<str>` | `A` | `err:…` (as above) | `unmodelled`.
+
+Request:  c15_logtimes <TAB> showTime(0|1) <TAB> displays(strlist)      (Model/ConsoleLogTime.lean `logTimeCells`)
+Answer: the time cells of consecutive `log` calls on a fresh console: cell,cell,…  with cell = `-` (no time column) or `=<str>`.
 -/
 namespace RichModel.Drv.C15
 open RichModel RichModel.Proto RichModel.Console
@@ -167,7 +179,42 @@ def encDerived (r : Except PyErr (Option (List Seg))) : String :=
 def decOptStr (s : String) : Option (List Char) :=
   if s == "-" then none else some (decStr (s.drop 1).toString)
 
+def encFmtErr : ConsoleFormat.FmtErr → String
+  | .valueError => "err:ValueError"
+  | .indexError => "err:IndexError"
+  | .keyError n => "err:KeyError:" ++ encStr n
+
+def encFmtRes : ConsoleFormat.FmtRes → String
+  | .ok s => "ok:" ++ encStr s
+  | .error e => encFmtErr e
+  | .unmodelled => "unmodelled"
+
 def handlers : List (String × (List String → String)) := [
+  ("c15_format", fun a => match a with
+    | [fmt, code, ss, fg, bg] =>
+      let vals : ConsoleFormat.Vals := ⟨decStr code, decStr ss, decStr fg, decStr bg⟩
+      encFmtRes (ConsoleFormat.formatStr vals (decStr fmt))
+    | _ => "bad-args"),
+  ("c15_logtimes", fun a => match a with
+    | [st, ds] =>
+      ",".intercalate ((ConsoleLogTime.logTimeCells (decBool st) {} (decStrList ds)).map (fun
+        | none => "-"
+        | some s => "=" ++ encStr s))
+    | _ => "bad-args"),
+  ("c15_htmlfmt", fun a => match a with
+    | [v, cfg, styles, record, clr, inl, fg, bg, fmt] =>
+      match decStyles styles with
+      | some rows =>
+        let st : State Nat := { record := decLine record }
+        let r := ConsoleFormat.stepHtmlStr (decVariant v) (decConfig cfg) (envOf rows) st (decBool clr) (decBool inl)
+          (decStr fmt) (decStr fg) (decStr bg)
+        match r.2 with
+        | .unmodelled => "unmodelled"
+        | .exported s => "e" ++ encStr s ++ "\t" ++ encLine r.1.record
+        | .assertionError => "A\t" ++ encLine r.1.record
+        | .raised e => encFmtErr e ++ "\t" ++ encLine r.1.record
+      | none => "unmodelled"
+    | _ => "bad-args"),
   ("c15_log", fun a => match a with
     | [flags, w, time, strs, sep, e, path] =>
       (do
